@@ -146,6 +146,7 @@ def ModRt.shutDown (m : ModRt) (now : Nat) : ModRt :=
            nextWakeup := (match m.nextWakeup with
              | some t => if t ≤ now then none else some t
              | none => none),
+           must := m.must.map (fun h => if h = HState.running then HState.cancelled else h),
            incarnation := m.incarnation + 1 }
 
 theorem consumeShutdown_none (s : State) (mi : Nat) (m : ModRt) (h : m.shutdownReq = none) :
